@@ -211,7 +211,7 @@ def _main(a, prop, seed, env, run_dir, t0):
     harness_errors = []
     # watchdog: a worker that is still running long after any sane budget is a harness problem (exit 2), not a
     # verdict; budgets are case counts, this only keeps a stuck worker from blocking the caller for ever
-    limit = float(os.environ.get("VERIF_WALL_LIMIT_S", "2700" if a.tier == "quick" else "28800"))
+    limit = float(os.environ.get("VERIF_WALL_LIMIT_S", "10800" if a.tier == "quick" else "43200"))
     t_end = t0 + limit
     for i, out, p in procs:
         try:
